@@ -64,8 +64,8 @@ HIST_NOTE = ('Trusts the reference model named in the text and the canonical sta
 claim('C10', 'explicit-state BFS over entry-path histories on the real Grid with a gating invariant; exhaustive agreement matrix over deciders',
       'Breadth-first search over histories of all 13 entry paths x 7 value kinds from 154 roots (7 declared versions x constructor variants) on a '
       'real Grid: after every step the gating invariant (explicit pre-3.0 version => ValueError and no 3.0-only value reachable; no version given '
-      '=> reports >= 3.0 as soon as one is reachable) and both writers (refuse with ValueError or declare >= 3.0) are evaluated; plus the complete '
-      'matrix 6 versions x 7 kinds x 7 deciders (Grid, ZINC/JSON writer, ZINC/JSON grid reader, ZINC/JSON scalar reader) who must all refuse '
+      '=> reports >= 3.0 as soon as one is reachable) and both writers (refuse with ValueError or declare >= 3.0) are evaluated; every state\'s slices and filter results obey the same invariant; plus the complete '
+      'matrix 6 versions x 7 kinds x 7 deciders, nested pre-3.0 grids inside 3.0 documents, (Grid, ZINC/JSON writer, ZINC/JSON grid reader, ZINC/JSON scalar reader) who must all refuse '
       'exactly when the declared version is below 3.0.',
       HIST_NOTE, 'DESIGN.md 5 C10')
 claim('C14', 'explicit-state BFS over operation histories on the real Grid in lock-step with a Python list',
@@ -100,8 +100,8 @@ claim('C03', 'deviation-bounded exhaustive enumeration of documents from an inde
 claim('C05', 'deviation-bounded exhaustive enumeration of documents from an independent Haystack-JSON writer, parsed by hszinc',
       'ref/refjson.py renders 11 base grids with a choice at every value (n:1 / n:1.0 / n:1e0 / raw JSON number, both Remove spellings, times with or '
       'without seconds/fraction, Z vs +00:00, bare vs s:-prefixed strings incl. strings that look like JSON or like other type prefixes, rows '
-      'missing/null/[], omitted null cells, object vs array) x input form (str, bytes, pre-decoded object) x single flag x 1-3 grids; all documents '
-      'with <= d deviations (2 quick, 3 thorough) must decode to the neutral value spelled, and a pre-decoded input object must be left unchanged.',
+      'missing/null/[], omitted null cells, object vs array) x input form (str, bytes, pre-decoded object, pre-decoded object whose equal sub-objects are one shared Python object) x single flag x 1-3 grids; '
+      'all documents with <= 3 deviations, and every 1-4-digit (thorough: every 1-6-digit) second fraction through the time and date-time decoders, must decode to the neutral value spelled, and a pre-decoded input object must be left unchanged.',
       'Trusts ref/refjson.py and ref/observe.py.', 'DESIGN.md 5 C05')
 claim('C07', 'exhaustive enumeration of parsed documents pushed through every dump/transcode chain with purity, determinism and idempotence oracles',
       'Every C03/C05 document with <= d spelling deviations (incl. grids declared 2.5, 3.0.0 and 4.0 and date-times without zone name) and every '
@@ -151,9 +151,10 @@ claim('C11', 'exhaustive enumeration of filter ASTs (all and/or trees, all atoms
       'The generator builds the filter AST, renders it with spacing/parenthesis variation and evaluates the real Grid.filter / generated function: '
       '(1) EVERY and/or tree with <= 4 leaves (5 thorough), every leaf polarity, 4-9 renderings, on the grid of all presence valuations (the truth '
       'table identifies the boolean function, so a wrong fold, precedence or associativity cannot hide); (2) every literal kind of the filter grammar '
-      '(28) x path shape (a, r->a, r->r->a, names that begin with not/and/or) x has/not/six comparisons x id style (str, Ref, Ref with display) on rows '
+      '(30) x path shape (a, r->a, r->r->a, r->r, a->a, a->r->a, p->q->a, names that begin with not/and/or) x has/not/six comparisons x id style (str, Ref, Ref with display) on rows '
       'realising absent, null, marker, equal, just below, just above, other kind, dangling reference, missing reference tag; (3) every atom under 8 '
-      'connective positions; (4) limit, empty filter, result header, identity and order of result rows, source grid untouched.',
+      'connective positions; (4) limit, empty filter, result header (also for unversioned sources), identity and order of result rows, source grid and what it answers '
+      'to id lookups untouched (compared with a never-filtered twin).',
       'Oracle ref/reffilter.py is three-valued (DESIGN.md Appendix C): where the statement does not fix the answer the atom is a don\'t-care and a row '
       'is compared only when the whole formula is definite; an exception on a definite row is a violation. Larger trees and other literals are not '
       'covered.', 'DESIGN.md 5 C11')
@@ -173,8 +174,9 @@ claim('C13', 'exhaustive preemption-bounded enumeration of thread interleavings 
       '(2 and 3 threads, distinct and identical filters, cache capacity real / 1 / 2): quick = bound 2 for two distinct filters, 1 otherwise; thorough '
       '= 3 with two threads, 2 with three. Each execution ends with a sequential post-phase re-evaluating every filter and every function object '
       'obtained earlier; results must equal the reference evaluator, no thread may raise, no finaliser may raise (sys.unraisablehook), no deadlock; a '
-      'failing schedule is replayed and must fail identically. Plus every request history of length <= 5 (6) over 4 filters with capacity 1 and 2, and '
-      'individual long histories around the real capacity (499..502 cyclic, hot/cold, 1500).',
+      'failing schedule is replayed and must fail identically. Plus every request history of length <= 5 (6) over 4 filters with capacity 1 and 2, every ordered pair (thorough: a third of the triples) '
+      'of 21 near-colliding filters (same text up to the kind of the literal, blanks or parentheses), and individual long histories around the '
+      'real capacity (499..502 cyclic, hot/cold 1100 and 2x520; thorough up to 5200).',
       'Interleavings below source-line granularity and inside C code (functools.lru_cache) are not explored; gc is disabled during an execution. The '
       'long histories are single runs, not exhaustive. Real Lock/RLock objects in grid_filter\'s globals are replaced by scheduler-aware locks.',
       'DESIGN.md 5 C13')
